@@ -52,7 +52,7 @@ def post_streams(run):
         run.cov["streams"]["mux-c01-race"] = {"evaluations": 0, "note": "go build -race failed: " + r.stdout[-300:]}
         return
     e = vcheck.env()
-    e["GORACE"] = "halt_on_error=0 log_path=%s" % os.path.join(outdir, "race")
+    e["GORACE"] = "halt_on_error=0 exitcode=0 log_path=%s" % os.path.join(outdir, "race")
     cmd = [os.path.join(root, "harness", "bin", "mux-race"), "-mode", "c01", "-seed", str(run.seed), "-out", outdir,
            "-blocks", "40", "-runs", "3", "-tieruns", "1", "-tieblocks", "16", "-procruns", "0"]
     r = subprocess.run(cmd, stdout=subprocess.PIPE, stderr=subprocess.STDOUT, text=True, env=e, cwd=run.work, timeout=3600)
